@@ -22,7 +22,8 @@ CHECKS = {
             'cache snapshot, update stream and reply class', '5/C04'),
     'C05': ('model_checking', 'sequential histories (<= 3/4 operations chosen by a symbolic selector) through the real announceUpdate funnel, read/write '
             'wrappers and dispatcher fan-out under a virtual clock with symbolic instants and a symbolic omit window; oracle: folding the received '
-            'messages reproduces the cache after every step, and the cache reflects the outcome of every operation', '5/C05'),
+            'messages reproduces the cache after every step, and the cache reflects the outcome of every operation; plus 2-3 concurrent announcer threads '
+            'under symbolic schedules (cooperative scheduler, <= 2/3 pre-emptions): message order = order of cache changes, stream ends on the cache', '5/C05'),
     'C06': ('model_checking', 'describe output of a catalogue node with symbolic datatype limits: structure/stability/JSON kinds, and for every described '
             'writable parameter the datatype rebuilt from the description accepts a symbolic payload iff the node accepts the change; emitted values '
             'are importable; flags, interface classes and features compared with an independent derivation; undescribed names refused', '5/C06'),
@@ -39,13 +40,15 @@ CHECKS = {
             'real JSON text concretely', '5/C17'),
     'C16': ('model_checking', 'sequential kernels of the real StringIO/BytesIO over a scripted fake connection (real readline/readbytes): stale data, '
             'time-outs under a virtual clock with symbolic recv steps, multicomm delays (symbolic), reconnect rate limit at symbolic instants, '
-            'reconnect callbacks, framing under chunkings chosen by symbolic selectors', '5/C16'),
+            'reconnect callbacks, framing under chunkings chosen by symbolic selectors; plus 2-3 concurrent caller threads (communicate/multicomm/writeline) '
+            'under symbolic schedules (<= 2/3 pre-emptions): own reply per caller, transactions not interleaved, nothing flushed as garbage', '5/C16'),
     'C13': ('model_checking', 'the real Module.__pollThread body executed in the calling thread in virtual time: symbolic start time, symbolic durations and '
             'symbolic failure kinds of the first poll functions, run-time interval changes at a symbolic wake-up; oracle on the event log: main poll gap '
             '<= interval + one sweep, slow polls not starved, unpolled parameters never read, failures survived, new interval effective from the next wake-up', '5/C13'),
-    'C08': ('model_checking', 'SEQUENTIAL histories only: activate/deactivate (global, module, parameter and undescribed scopes), *IDN?, disconnect on two '
-            'connections interleaved in sequence with updates of symbolic values, chosen by symbolic selectors, against a scope-set model; the '
-            'activation-races-update half of the property (thread schedules) is not claimed', '5/C08'),
+    'C08': ('model_checking', 'sequential histories: activate/deactivate (global, module, parameter and undescribed scopes), *IDN?, disconnect on two '
+            'connections interleaved in sequence with updates of symbolic values, chosen by symbolic selectors, against a scope-set model; plus a request '
+            'thread racing 1-2 driver threads under symbolic schedules (cooperative scheduler, <= 2/3 pre-emptions at lock and send points): snapshot '
+            'before the reply, last message = cache, nothing after the scope was given up, other connection unaffected', '5/C08'),
     'C18': ('model_checking', 'StructParam layouts, FloatEnumParam label sets, limit parameters and HasControlledBy/HasOutputModule groups under operation '
             'sequences chosen by symbolic selectors with symbolic values; assertions: member-wise agreement after every step, value = valuedict[index] and '
             'closest-value write (solver-decided over the symbolic written float), accepted iff inside current symbolic limits, at most one active controller '
@@ -62,8 +65,9 @@ CHECKS = {
             'only values inside the catalogue programs are solver-quantified', '5/C09'),
     'C11': ('model_checking', 'a real SecopClient without sockets whose transmit/receive loop bodies run one iteration at a time in an order chosen by '
             'symbolic selectors (request mix with equal keys and unknown actions, matching / error / unrelated / unknown replies, caller time-outs, '
-            'final disconnect or shutdown) against an independent model of the pending-request table; pre-emption inside an iteration and real thread '
-            'shutdown are not claimed', '5/C11'),
+            'final disconnect or shutdown) against an independent model of the pending-request table; plus the real transmit/receive thread bodies, 2 callers '
+            'and a shutdown thread as real threads under symbolic schedules (delay bound 2/3) against 5 peer scripts: own reply or error, prompt release, '
+            'shutdown does not raise, no thread left', '5/C11'),
     'C12': ('model_checking', 'a real SecopClient initialised from the real description processes message sequences (kinds chosen by symbolic selectors, '
             'symbolic values and time stamps vs. a symbolic now) one receive-loop iteration at a time: cache == import of the last message, time stamp '
             'never in the future, callbacks once per message per level, registration reports the cached state; end-to-end composition without sockets '
@@ -82,18 +86,18 @@ PER_NOTE = {
     'C02': 'text form of float leaves and JSON text only on solver-chosen witness models; scaled grid index box +-8 (symbolic part), IEEE kernels by the QF_FP lemmas of C03',
     'C03': 'QF_FP lemmas bounded to a 9/13 bit grid index and 7 catalogue scales, a timed-out lemma is inconclusive; units/fmtstr beyond catalogue literals not covered',
     'C04': 'fixed catalogue module class instead of generated classes; sequential requests only (dispatcher lock not analysed)',
-    'C05': 'sequential histories only: concurrent announcers / atomicity of the update lock are NOT claimed',
+    'C05': 'thread schedules only within <= 2/3 pre-emptions at synchronisation points (locks, send, driver entry) for 2-3 threads',
     'C06': 'catalogue node + four shipped configurations instead of generated configurations',
     'C07': 'catalogue of request lines (selector) instead of a free byte grammar; asynchronous messages vs. send lock NOT claimed',
-    'C08': 'SEQUENTIAL histories only; the activation-races-update half of the property (thread schedules) is NOT claimed',
+    'C08': 'thread schedules only within <= 2/3 pre-emptions at synchronisation points for 2-3 threads; three open known findings (late update after deactivate/*IDN?/disconnect)',
     'C09': 'quantifies over values inside a fixed catalogue of class hierarchies, not over programs',
     'C10': 'config dicts built with the real DSL objects; config text files and search path outside',
-    'C11': 'one loop iteration = one atomic step; pre-emption inside an iteration and real thread shutdown NOT claimed',
+    'C11': 'thread schedules only within delay bound 2/3 at synchronisation points (queue, event, lock, send/readline, join), 2 callers',
     'C12': 'in-process composition (no TCP, no threads); messages enter through a stub of decode_msg',
     'C13': 'virtual time, horizon K wake-ups, 1-2 modules; real-time behaviour and long horizons outside',
     'C14': 'call budget 3/4 symbolic state calls, maxloops 3; pre-emption inside cycle() NOT claimed',
     'C15': 'out-degree <= 1 attachment graphs on <= 3/4 modules; fake threads (eager or deferred), no real threads',
-    'C16': 'sequential kernels; pairing under concurrent callers and real sockets/serial lines NOT claimed',
+    'C16': 'concurrent callers only within <= 2/3 pre-emptions at lock and I/O points for 2-3 threads; real sockets/serial lines NOT claimed',
     'C17': 'in-memory file system model (atomic rename, ordered durable writes); fsync level effects outside',
     'C18': 'catalogue layouts / label sets; two open known findings (see known_findings.json)',
     'C19': 'selectors over padding length window and character catalogue; fake socket',
@@ -137,6 +141,9 @@ def main():
         'engines': [
             {'name': 'crosshair', 'path': 'engine/xh.py', 'serves_properties': ['C01', 'C04', 'C07', 'C08', 'C12', 'C20'],
              'kind_free_text': 'CrossHair 0.0.110 (symbolic execution with z3) for symbolic string arguments, one process per condition, reachability twin, counterexamples replayed'},
+            {'name': 'cosched', 'path': 'engine/cosched.py', 'serves_properties': ['C05', 'C08', 'C11', 'C16'],
+             'kind_free_text': 'cooperative scheduler: real threads serialised by a baton, the thread to continue at every synchronisation point is a symbolic '
+                               'selector of symx; pre-emption / delay bounded, virtual time, schedules replayed on the unmodified tree'},
             {'name': 'fp-lemmas', 'path': 'engine/fp.py', 'serves_properties': ['C03', 'C02'],
              'kind_free_text': 'scaled-integer kernels translated from the AST into z3 QF_FP terms, bounded bit-vector index, sat models replayed on the real code'},
             {'name': 'symx', 'path': 'engine/symx.py', 'serves_properties': sorted(CHECKS),
